@@ -31,10 +31,88 @@ pub struct CompositeCase {
     /// so for every semantics whose extensions are complete (all but STG) the answers are those of the union.
     #[serde(default)]
     pub hub: u8,
+    /// further components with closed-form extensions, (kind, size): 0 directed even cycle, 1 directed odd
+    /// cycle, 2 chain, 3 symmetric clique. Sizes up to 60: single connected components far beyond brute force.
+    #[serde(default)]
+    pub closed: Vec<(u8, u8)>,
+}
+
+/// The graph of a closed-form component.
+pub fn closed_graph(kind: u8, size: u8) -> AbsGraph {
+    let (kind, n) = closed_norm(kind, size);
+    let n8 = n as u8;
+    let mut att = vec![];
+    match kind {
+        0 | 1 => {
+            for i in 0..n8 {
+                att.push((i, (i + 1) % n8));
+            }
+        }
+        2 => {
+            for i in 1..n8 {
+                att.push((i - 1, i));
+            }
+        }
+        _ => {
+            for i in 0..n8 {
+                for j in 0..n8 {
+                    if i != j {
+                        att.push((i, j));
+                    }
+                }
+            }
+        }
+    }
+    AbsGraph { n, att }
+}
+
+/// Normalises (kind, size): even cycles get an even length >= 2, odd cycles an odd length >= 3, cliques <= 24.
+fn closed_norm(kind: u8, size: u8) -> (u8, usize) {
+    let k = kind % 4;
+    let s = size as usize;
+    let n = match k {
+        0 => (2 + s % 59) & !1usize,
+        1 => (3 + s % 57) | 1,
+        2 => 1 + s % 60,
+        _ => 2 + s % 23,
+    };
+    (k, n.max(if k == 0 { 2 } else { 1 }))
+}
+
+/// Closed-form extension families as 64-bit masks; None for a family that is not claimed (STG of odd cycles).
+fn closed_exts(kind: u8, size: u8, sem: Sem) -> Option<Vec<u64>> {
+    let (k, n) = closed_norm(kind, size);
+    let evens: u64 = (0..n).filter(|i| i % 2 == 0).fold(0, |m, i| m | (1u64 << i));
+    let odds: u64 = (0..n).filter(|i| i % 2 == 1).fold(0, |m, i| m | (1u64 << i));
+    Some(match k {
+        // directed even cycle: admissible sets are the empty set and the two parity classes
+        0 => match sem {
+            Sem::GR | Sem::ID => vec![0],
+            Sem::CO => vec![0, evens, odds],
+            _ => vec![evens, odds],
+        },
+        // directed odd cycle: only the empty set is admissible; no stable extension; stage not claimed
+        1 => match sem {
+            Sem::ST => vec![],
+            Sem::STG => return None,
+            _ => vec![0],
+        },
+        // chain: acyclic, the grounded extension (even positions) is the unique extension of every semantics
+        2 => vec![evens],
+        // symmetric clique: the singletons are the stable extensions; the empty set is complete as well
+        _ => match sem {
+            Sem::GR | Sem::ID => vec![0],
+            Sem::CO => std::iter::once(0u64).chain((0..n).map(|i| 1u64 << i)).collect(),
+            _ => (0..n).map(|i| 1u64 << i).collect(),
+        },
+    })
 }
 
 pub fn all_comps(case: &CompositeCase) -> Vec<AbsGraph> {
     let mut v = case.comps.clone();
+    for (k, sz) in &case.closed {
+        v.push(closed_graph(*k, *sz));
+    }
     if case.hub > 0 {
         v.push(AbsGraph { n: 2, att: vec![(0, 1)] });
     }
@@ -89,7 +167,7 @@ pub fn attack_nodes(case: &CompositeCase) -> Vec<(usize, usize)> {
     }
     if case.hub > 0 {
         let h = lay.offs[comps.len() - 1] + 1;
-        for (c, g) in case.comps.iter().enumerate() {
+        for (c, g) in comps.iter().enumerate().take(comps.len() - 1) {
             if g.n > 0 {
                 lines.push((h, lay.offs[c] + (case.hub as usize * 7 + c * 3) % g.n));
             }
@@ -109,7 +187,7 @@ pub fn text(case: &CompositeCase) -> String {
     }
     if case.hub > 0 {
         let h = lay.offs[comps.len() - 1] + 1;
-        for (c, g) in case.comps.iter().enumerate() {
+        for (c, g) in comps.iter().enumerate().take(comps.len() - 1) {
             if g.n > 0 {
                 lines.push((h, lay.offs[c] + (case.hub as usize * 7 + c * 3) % g.n));
             }
@@ -140,21 +218,55 @@ pub fn text(case: &CompositeCase) -> String {
     s
 }
 
-struct Reference {
-    fams: Vec<Fams>,
-    /// does the whole framework have an extension under ST?
-    has_stable: bool,
+/// Extension families of one component, as 64-bit masks over its local indices.
+pub struct CompFams {
+    by_sem: Vec<Option<Vec<u64>>>,
+    pub co: Vec<u64>,
 }
 
-fn reference(case: &CompositeCase) -> Reference {
-    let fams: Vec<Fams> = all_comps(case).iter().map(|g| Fams::new(&G::new(g.n, &g.att_usize()))).collect();
-    let has_stable = fams.iter().all(|f| !f.st.is_empty());
+impl CompFams {
+    pub fn exts(&self, sem: Sem) -> Vec<u64> {
+        self.by_sem[ALL_SEMS.iter().position(|s| *s == sem).unwrap()].clone().expect("family not claimed for this component")
+    }
+    fn knows(&self, sem: Sem) -> bool {
+        self.by_sem[ALL_SEMS.iter().position(|s| *s == sem).unwrap()].is_some()
+    }
+}
+
+pub struct Reference {
+    pub fams: Vec<CompFams>,
+    /// does the whole framework have an extension under ST?
+    pub has_stable: bool,
+}
+
+pub fn reference(case: &CompositeCase) -> Reference {
+    let mut fams: Vec<CompFams> = vec![];
+    for g in &case.comps {
+        let f = Fams::new(&G::new(g.n, &g.att_usize()));
+        let by_sem = ALL_SEMS.iter().map(|s| Some(f.exts(*s).iter().map(|m| *m as u64).collect())).collect();
+        fams.push(CompFams { by_sem, co: f.co.iter().map(|m| *m as u64).collect() });
+    }
+    for (k, sz) in &case.closed {
+        let by_sem: Vec<Option<Vec<u64>>> = ALL_SEMS.iter().map(|s| closed_exts(*k, *sz, *s)).collect();
+        let co = closed_exts(*k, *sz, Sem::CO).unwrap();
+        fams.push(CompFams { by_sem, co });
+    }
+    if case.hub > 0 {
+        // u -> h : {u} is the unique extension of every semantics
+        fams.push(CompFams { by_sem: ALL_SEMS.iter().map(|_| Some(vec![1u64])).collect(), co: vec![1] });
+    }
+    let has_stable = fams.iter().all(|f| !f.exts(Sem::ST).is_empty());
     Reference { fams, has_stable }
 }
 
+/// The semantics this case can be judged under: STG is skipped with the hub and with odd cycles.
+pub fn judged_sems(case: &CompositeCase, r: &Reference) -> Vec<Sem> {
+    ALL_SEMS.iter().copied().filter(|s| (case.hub == 0 || *s != Sem::STG) && r.fams.iter().all(|f| f.knows(*s))).collect()
+}
+
 /// Projects a returned set on every component; Err if a member is foreign or listed twice.
-fn project<T: LabelType>(ext: &Ext<T>, af: &AAFramework<T>, index: &std::collections::HashMap<String, usize>, lay: &Layout, ncomp: usize) -> Result<Vec<u32>, String> {
-    let mut masks = vec![0u32; ncomp];
+fn project<T: LabelType>(ext: &Ext<T>, af: &AAFramework<T>, index: &std::collections::HashMap<String, usize>, lay: &Layout, ncomp: usize) -> Result<Vec<u64>, String> {
+    let mut masks = vec![0u64; ncomp];
     for m in ext {
         let node = *index.get(&m.label.to_string()).ok_or_else(|| format!("member {} is not an argument of the framework", m.label))?;
         let own = af.argument_set().get_argument(&m.label).map(|a| a.id()).ok();
@@ -162,10 +274,10 @@ fn project<T: LabelType>(ext: &Ext<T>, af: &AAFramework<T>, index: &std::collect
             return Err(format!("member {} has id {} but the framework's argument has id {:?}", m.label, m.id, own));
         }
         let (c, l) = lay.comp_of[node];
-        if masks[c] & (1 << l) != 0 {
+        if masks[c] & (1u64 << l) != 0 {
             return Err(format!("member {} listed twice", m.label));
         }
-        masks[c] |= 1 << l;
+        masks[c] |= 1u64 << l;
     }
     Ok(masks)
 }
@@ -174,8 +286,8 @@ fn run_generic<T: LabelType>(which: Which, case: &CompositeCase, af: &AAFramewor
     let lay = layout(case);
     let r = reference(case);
     let ncomp = all_comps(case).len();
-    // with the hub, stage semantics (conflict-free based) is not compositional: skipped
-    let sems: Vec<Sem> = ALL_SEMS.iter().copied().filter(|s| case.hub == 0 || *s != Sem::STG).collect();
+    // with the hub, stage semantics (conflict-free based) is not compositional: skipped; so is it with odd cycles
+    let sems: Vec<Sem> = judged_sems(case, &r);
     let index: std::collections::HashMap<String, usize> = (0..lay.n).map(|i| (label_of(case, &lay, i), i)).collect();
     let id = match which {
         Which::C01 => "C01",
@@ -199,7 +311,7 @@ fn run_generic<T: LabelType>(which: Which, case: &CompositeCase, af: &AAFramewor
             e
         }
     };
-    let fam_of = |sem: Sem, c: usize| -> Vec<u32> { r.fams[c].exts(sem) };
+    let fam_of = |sem: Sem, c: usize| -> Vec<u64> { r.fams[c].exts(sem) };
     let exists = |sem: Sem| sem != Sem::ST || r.has_stable;
     let ctx = || format!("{} arguments in {} components:\n{}", lay.n, ncomp, text(case));
     if which == Which::C01 {
@@ -225,7 +337,7 @@ fn run_generic<T: LabelType>(which: Which, case: &CompositeCase, af: &AAFramewor
                         if !fam_of(sem, c).contains(&masks[c]) {
                             return Err(Failure::new(
                                 format!("{}/not-an-extension", sig),
-                                format!("on component {} the returned set is {:?}, its extensions are {:?}; {}", c, crate::util::mask_to_vec(masks[c]), crate::util::masks_to_vecs(&fam_of(sem, c)), ctx()),
+                                format!("on component {} the returned set is {:?}, its extensions are {:?}; {}", c, m64(masks[c]), fam_of(sem, c).iter().take(12).map(|x| m64(*x)).collect::<Vec<_>>(), ctx()),
                             ));
                         }
                     }
@@ -245,7 +357,7 @@ fn run_generic<T: LabelType>(which: Which, case: &CompositeCase, af: &AAFramewor
             let enc = pick(q, sem, k);
             for &a in &queried {
                 let (c, l) = lay.comp_of[a];
-                let bit = 1u32 << l;
+                let bit = 1u64 << l;
                 let fam = fam_of(sem, c);
                 let expected = if q == Q::DC {
                     exists(sem) && fam.iter().any(|e| e & bit != 0)
@@ -291,7 +403,7 @@ fn run_generic<T: LabelType>(which: Which, case: &CompositeCase, af: &AAFramewor
                                 if !wf.contains(&masks[cc]) {
                                     return Err(Failure::new(
                                         format!("{}/certificate-not-an-extension", sig),
-                                        format!("argument {}: on component {} the certificate is {:?}; {}", lab, cc, crate::util::mask_to_vec(masks[cc]), ctx()),
+                                        format!("argument {}: on component {} the certificate is {:?}; {}", lab, cc, m64(masks[cc]), ctx()),
                                     ));
                                 }
                             }
@@ -307,6 +419,10 @@ fn run_generic<T: LabelType>(which: Which, case: &CompositeCase, af: &AAFramewor
     Ok(())
 }
 
+fn m64(m: u64) -> Vec<usize> {
+    (0..64).filter(|i| m & (1u64 << i) != 0).collect()
+}
+
 pub fn run(which: Which, case: &CompositeCase, rec: &mut Rec) -> CheckResult {
     let lay = layout(case);
     if lay.n == 0 {
@@ -317,6 +433,10 @@ pub fn run(which: Which, case: &CompositeCase, rec: &mut Rec) -> CheckResult {
     rec.class(&format!("composite-components-{:02}+", (case.comps.len() / 5) * 5));
     if case.hub > 0 {
         rec.class("composite-single-connected-component-through-defeated-hub");
+    }
+    for (k, sz) in &case.closed {
+        let (k, n) = closed_norm(*k, *sz);
+        rec.class(&format!("closed-form-component-{}-n{:02}+", ["even-cycle", "odd-cycle", "chain", "clique"][k as usize], (n / 20) * 20));
     }
     if rec.nontrivial(&serde_json::to_string(case).unwrap_or_default()) {
         rec.sample(|| json!({"composite_framework_arguments": lay.n, "components": case.comps.len(), "format": if case.apx {"aspartix"} else {"iccma23"}, "text_head": t.chars().take(120).collect::<String>()}));
@@ -368,7 +488,7 @@ fn lists_generic<T: LabelType>(case: &CompositeCase, af: &AAFramework<T>, mk_lab
     let r = reference(case);
     let ncomp = all_comps(case).len();
     let index: std::collections::HashMap<String, usize> = (0..lay.n).map(|i| (label_of(case, &lay, i), i)).collect();
-    let sems: Vec<Sem> = ALL_SEMS.iter().copied().filter(|s| case.hub == 0 || *s != Sem::STG).collect();
+    let sems: Vec<Sem> = judged_sems(case, &r);
     // the list: the queried picks in the given order (repetitions kept), at most 3
     let list: Vec<usize> = case.queried.iter().take(3).map(|x| idx(*x, lay.n)).collect();
     let labels: Vec<T> = list.iter().map(|i| mk_label(*i)).collect();
@@ -393,10 +513,10 @@ fn lists_generic<T: LabelType>(case: &CompositeCase, af: &AAFramework<T>, mk_lab
             let enc = if e == Enc::ExpCo { Enc::Hybrid } else { e };
             let exists = sem != Sem::ST || r.has_stable;
             // per component: the mask of listed arguments
-            let mut lmask = vec![0u32; ncomp];
+            let mut lmask = vec![0u64; ncomp];
             for i in &list {
                 let (c, l) = lay.comp_of[*i];
-                lmask[c] |= 1 << l;
+                lmask[c] |= 1u64 << l;
             }
             let expected = if q == Q::DC {
                 exists && (0..ncomp).any(|c| lmask[c] != 0 && r.fams[c].exts(sem).iter().any(|x| x & lmask[c] != 0))
@@ -458,4 +578,32 @@ fn lists_generic<T: LabelType>(case: &CompositeCase, af: &AAFramework<T>, mk_lab
         rec.sample(|| json!({"composite_framework_arguments": lay.n, "list_nodes": list, "components_spanned": spans}));
     }
     Ok(())
+}
+
+
+/// The closed forms are compared with brute force on every size up to 13 arguments (run at start-up).
+pub fn self_test_closed() -> Result<usize, String> {
+    let mut checked = 0;
+    for kind in 0u8..4 {
+        for size in 0u8..=255 {
+            let (k, n) = closed_norm(kind, size);
+            if n > 13 {
+                continue;
+            }
+            let g = closed_graph(kind, size);
+            let f = Fams::new(&G::new(g.n, &g.att_usize()));
+            for sem in ALL_SEMS {
+                if let Some(mut c) = closed_exts(kind, size, sem) {
+                    let mut b: Vec<u64> = f.exts(sem).iter().map(|m| *m as u64).collect();
+                    c.sort();
+                    b.sort();
+                    if c != b {
+                        return Err(format!("closed form of kind {} size {} under {} is {:?}, brute force gives {:?}", k, n, sem.name(), c, b));
+                    }
+                    checked += 1;
+                }
+            }
+        }
+    }
+    Ok(checked)
 }
